@@ -351,9 +351,26 @@ func runC10(rc *RunCtx, i int) {
 	if timeCase {
 		nb = r.Range(1, 3)
 	}
+	// A batch that is rejected (unmarshalable row) or empty while nothing is buffered leaves
+	// nothing behind -- not even a running MaxBufferedTime clock or a disarmed timer. It is sent
+	// now and then, followed by a pause longer than any internal tick.
+	prelude := func(where string) {
+		kind := core.Pick(r, []string{"unmarshalable", "unmarshalable", "empty"})
+		rows, _ := makeBatch(rr, env.w, kind)
+		ch := make(chan error, 2)
+		if err := e.IngestRows(context.Background(), rows, ch); err != nil {
+			return
+		}
+		time.Sleep(time.Duration(r.Range(130, 260)) * time.Millisecond)
+		steps = append(steps, where+":"+kind+"-batch-on-empty-buffer+pause")
+		rc.Res.Count("rejected_or_empty_batches_on_empty_buffer", 1)
+	}
 	for k := 0; k < nb; k++ {
 		if len(pending) > 0 && allAnswered() {
 			reset() // the engine flushed (possibly earlier than required): buffers are empty
+		}
+		if rows == 0 && len(pending) == 0 && ((timeCase && i%10 == 9) || r.Chance(0.08)) {
+			prelude(fmt.Sprintf("before-batch-%d", k))
 		}
 		n := r.Range(1, 6)
 		if r.Chance(0.1) {
